@@ -103,7 +103,9 @@ def write_rendering(workdir, schema, v, r):
         text = render.sdl(sch, order=order, fold_extensions=r["fold"], declare_builtins=r["builtins"], docs=r.get("docs", False))
     else:
         p = os.path.join(workdir, "s_%s.json" % key)
+        # a server that predates @oneOf does not report `isOneOf` at all: the same schema when no input is @oneOf
         text = render.introspection_json(sch, order=order, wrapped=(r["fmt"] == "wrapped"),
+                                         is_one_of=not (r["sparse"] and not v["oneOf"]),
                                          include_builtins=r["builtins"],
                                          include_introspection_types=r["introTypes"], sparse=r["sparse"], docs=r.get("docs", False))
     vlib.write_if_changed(p, text)
